@@ -261,9 +261,10 @@ func rqRun(which string) func(c *core.Ctx) {
 			return rqOracle(which, ts.Bits, td.Bits, rawToAmp(ts.Kind, ts.Bits, in), rawToAmp(td.Kind, td.Bits, out))
 		}
 		// C06's order clause works both ways for equal inputs: equal samples must give equal results
+		wait := c.ReverseOrderPassAsync("mc-shim") // a process of its own, meanwhile
 		ctxPasses(c, which, judge, which == "C06", fixed)
 		c.Set("ctx_digests", digests)
-		if res := c.ReverseOrderPass("mc-shim"); res != nil && which == "C06" {
+		if res := wait(); res != nil && which == "C06" {
 			ctxCompareDigests(c, digests, res.Digests)
 		}
 		c.Set("evaluations", evals.Load()+c.CtxEvals())
